@@ -3,6 +3,7 @@
 package martian
 
 import (
+	"sync"
 	"bytes"
 	"errors"
 	"io"
@@ -51,6 +52,7 @@ type zztcpConn struct {
 	closed   bool
 	closedc  chan struct{}
 	deadline int
+	writeMu  sync.Mutex
 }
 
 func zznewTCPConn(name string) *zztcpConn {
@@ -83,7 +85,12 @@ func (c *zztcpConn) Read(p []byte) (int, error) {
 	return n, nil
 }
 
+// A real write is not one indivisible step behind the read that filled the buffer (it takes the
+// descriptor's write lock first): that is a scheduling point, so the other direction may run
+// between a copy loop's Read and its Write.
 func (c *zztcpConn) Write(p []byte) (int, error) {
+	c.writeMu.Lock()
+	c.writeMu.Unlock()
 	if c.closed || c.outEOF || c.in.reset {
 		return 0, zzerrClosedConn
 	}
